@@ -236,4 +236,75 @@ def stressMain : IO Unit := do
   let st ← stressLoop (← IO.getStdin) {} "?" 0
   st.print
 
+/-! ### self-test: the model as implementation (see Driver/WQ.lean `wqsim`)
+
+`tvdriver pubsim <seed>` answers a script from the model, running the enabled internal steps in a
+pseudo-random order (no partial-order reduction here: the driver's reduction has to cope with any order). -/
+
+def lcg (x : Nat) : Nat := (x * 6364136223846793005 + 1442695040888963407) % 18446744073709551616
+
+def settleRandom : Nat → Nat → St → Nat × St
+  | 0, rng, s => (rng, s)
+  | fuel + 1, rng, s =>
+    let acts := internalActs s
+    if acts.isEmpty then (rng, s) else
+    let rng := lcg rng
+    match acts[(rng / 65536) % acts.length]? >>= step? s with
+    | some s' => settleRandom fuel rng s'
+    | none => (rng, s)
+
+def simStep (s : St) (rng : Nat) (op : String) : St × Nat × String :=
+  let toks := words op
+  let fs := fieldsOf toks
+  let kind := toks.headD "?"
+  let fin (s' : St) (pre : String) : St × Nat × String :=
+    let (rng', q) := settleRandom 100000 rng s'
+    (q, rng', pre ++ showObs (obsOf q) ++ " blocked=0")
+  let orSame (x : Option St) : St := x.getD s
+  match kind with
+  | "new" => fin init ""
+  | "sub" => fin (orSame (step? s (.subscribe ((getNat fs "cap").getD 0) (parseFilter ((getF fs "filter").getD "none"))
+      (if getF fs "to" == some "short" then 1 else 1000) (getF fs "cbf" == some "1") (getF fs "cbt" == some "1")))) ""
+  | "pub" => fin (orSame (step? s (.publish ((getNat fs "v").getD 0)))) ""
+  | "recv" =>
+    let k := (getNat fs "sub").getD 0
+    match getSub s k with
+    | none => fin s "got=none "
+    | some x =>
+      match x.buf with
+      | v :: _ => fin (orSame (step? s (.receive k))) s!"got={v} "
+      | [] =>
+        let hs := holders s k
+        if !hs.isEmpty && !x.chClosed then
+          let rng' := lcg rng
+          match hs[(rng' / 65536) % hs.length]? with
+          | some d => (match step? s (.rendezvous k d.uid) with
+              | some s' => let (q, r2, o) := simStep.finish s' rng' ; (q, r2, s!"got={d.msg} " ++ o)
+              | none => fin s "got=none ")
+          | none => fin s "got=none "
+        else if x.chClosed then fin s "got=closed " else fin s "got=none "
+  | "closesub" => fin (orSame (step? s (.closeSub ((getNat fs "sub").getD 0)))) ""
+  | "closepub" => fin (orSame (step? s .closePub)) ""
+  | "sleep" => fin (orSame (step? s .tick)) ""
+  | _ => fin s ""
+where finish (s' : St) (rng : Nat) : St × Nat × String :=
+  let (rng', q) := settleRandom 100000 rng s'
+  (q, rng', showObs (obsOf q) ++ " blocked=0")
+
+partial def simLoop (h : IO.FS.Stream) (s : St) (rng : Nat) : IO Unit := do
+  let line ← h.getLine
+  if line.isEmpty then return ()
+  let line := (line.dropEndWhile (· == '\n')).toString
+  if line.startsWith "case " then
+    IO.println line
+    simLoop h init rng
+  else if line.isEmpty then simLoop h s rng
+  else
+    let (s', rng', obs) := simStep s rng line
+    IO.println s!"{line} => {obs}"
+    simLoop h s' rng'
+
+def simMain (seed : Nat) : IO Unit := do
+  simLoop (← IO.getStdin) init (lcg (seed + 999))
+
 end Driver.Pub
